@@ -77,7 +77,9 @@ class DanglingDetectionValidator(SigmaRuleValidator):
             parsed_condition = condition.parse(False)
             referenced_ids.update(self.condition_referenced_ids(parsed_condition, rule.detection))
 
-        return [DanglingDetectionIssue([rule], name) for name in detection_names - referenced_ids]
+        return [
+            DanglingDetectionIssue([rule], name) for name in sorted(detection_names - referenced_ids)
+        ]
 
 
 @dataclass
